@@ -22,7 +22,7 @@ FUNCTIONS = [(F, "AssemblyManager.__init__"), (F, "AssemblyManager._generate_mod
 ASSUMES = ["D-SEQ", "D-REC-ADD", "D-WARN", "D-COPY",
            "abstract view of the entity contracts (valid/ostart/oend/frag are functions of the entity: C06)",
            "induction rule for the walk-uniqueness lemma (base and step are discharged, the rule is trusted)",
-           "termination of the overhang walk is not verified (bounded layer only)",
+           "termination of the overhang walk: variant card(modmap) decreases with every pop (obligation loop0:decreases); the finite-map law card(m - {k}) = card(m) - 1 >= 0 for a present key is assumed (D-DICT)",
            "citation passes: contracts of _deref_citations/_ref_citations assumed at this level (see C10)"]
 TRUSTED = ["Bio.Seq equality/hash (D-SEQ)", "warnings (D-WARN)"]
 EXPLANATION = ("body VCs of __init__, _generate_modules_map (both loops, ghost witness index), _generate_assembly (while "
@@ -252,5 +252,5 @@ LEVEL_TEXT = ("Deductive: the four functions that decide the outcome are checked
               "a function of the overhang graph; lemmas give uniqueness of the walk (base/step), exclusivity of product and "
               "MissingModule, and independence of the argument order, for all multisets and all overhang alphabets.")
 LEVEL_NOTE = ("Assumed: entity methods through their abstract view, Seq equality/hash, SeqRecord +, warnings, the induction "
-              "rule, termination; citation passes assumed here. Bounded part (not proved): 5-overhang alphabet, multisets <= 2 "
+              "rule, the finite-map law behind the walk's termination variant; citation passes assumed here. Bounded part (not proved): 5-overhang alphabet, multisets <= 2 "
               "(3 thorough) with seeded larger ones, against a graph oracle on real BsaI plasmids.")
